@@ -86,7 +86,9 @@ func GetScanSlice(types []*sql.ColumnType) []interface{} {
 			scanVal := uint64(0)
 			scanSlice = append(scanSlice, &scanVal)
 		case ScanTypeRawBytes:
-			scanVal := ""
+			// the driver reports RawBytes for text columns whether or not they are nullable, and
+			// NULL cannot be scanned into a string
+			scanVal := sql.NullString{}
 			scanSlice = append(scanSlice, &scanVal)
 		case ScanTypeUnknown:
 			scanVal := new(interface{})
